@@ -1,7 +1,444 @@
-"""C03 (stub while building)"""
-EXPLANATION = "x"
-RULE = "x"
+"""C03 -- each action logs exactly one start and one truthful end; errors pass through."""
+
+import ast
+
+from ..index import unparse, iter_own_nodes, AnalysisError
+from ..cfg import calls_in_node, INF, handler_catches_all_exceptions
+from ..framework import stores_to_name, assigned_values
+from . import common
+
+EXPLANATION = (
+    "Path rules on Action and the error-extraction helpers: every creator of a started action calls _start "
+    "exactly once on every path and nothing else calls it; finish() writes only under the finished-flag "
+    "being false, sets the flag before anything that can raise or re-enter, and writes exactly once; the "
+    "succeeded status is control-dependent on a test that is true only for `exception is None` (any "
+    "narrowing -- truthiness, isinstance(Exception) -- is a violation); __exit__ passes its exception "
+    "parameter unchanged to finish on every path and returns a falsy constant; run()/context() contain no "
+    "except clause; the failure fields are built from the exception's class module/name, safeunicode and "
+    "the extractor found by walking the MRO in order, nearest class first; safeunicode/saferepr are total; "
+    "reporting a failed extractor cannot re-enter extraction (C07.cycles)."
+)
+RULE = ("obligation = rule instance bound to a method / branch / call site of Action, ErrorExtraction or "
+        "_util; non-trivial = CFG paths examined")
+ASSUMPTIONS = [
+    "the text produced by str(exception) and the values returned by extractors are not decided",
+    "Python semantics of __exit__ returning a falsy value and of try/finally (the same exception object continues)",
+]
+
+
+def _creators(chk):
+    ctx = chk.ctx
+    start = ctx.func("_action", "Action._start")
+    out = {}
+    for s in ctx.cg.callers_of(start):
+        if s.func in set(ctx.p.all_funcs()):
+            out.setdefault(s.func, []).append(s)
+    return start, out
+
+
+def rule_start(chk):
+    ctx = chk.ctx
+    start, creators = _creators(chk)
+    chk.instances("C03.start:_start callers", len(creators), 4)
+    stask = ctx.func("_action", "startTask")
+    sact = ctx.func("_action", "start_action")
+    allowed = {"_action:Action.continue_task", "_action:start_action", "_action:startTask", "_action:log_call.logging_wrapper"}
+    for f in sorted(creators, key=lambda x: x.fq):
+        chk.req(f.fq in allowed, "C03.start", "%s:may-call-_start" % f.fq, chk.where(f),
+                good="action creator", fail="%s logs a start message for an action it did not create" % f.fq)
+    init = ctx.func("_action", "Action.__init__")
+    from . import c02
+    impls = c02.write_impls(chk)
+    reach = set()
+    todo = [init]
+    while todo:
+        g = todo.pop()
+        for s in ctx.cg.sites.get(g, []):
+            for h in s.repo_targets():
+                if h not in reach:
+                    reach.add(h)
+                    todo.append(h)
+    chk.req(not (set(impls) & reach), "C03.start", "Action.__init__:emits-nothing", chk.where(init),
+            good="constructing an Action writes no message", fail="Action.__init__ can reach an ILogger.write")
+    starters = [start, stask, sact]
+    for f in [ctx.func("_action", "Action.continue_task"), stask, sact, ctx.func("_action", "log_call.logging_wrapper")]:
+        cfg = ctx.cfg(f)
+        ev = []
+        for g in starters:
+            if g is f:
+                continue
+            ev += ctx.calls_to(f, g)
+        quiet = common.quiet_exc_edges(ctx, f)
+
+        def w(n):
+            return sum(1 for (nn, c, m) in ev if nn is n)
+        # up to the first return / the point where the action is handed to the body
+        dsts = [cfg.exit]
+        if f.qualname == "log_call.logging_wrapper":
+            dsts = [n for n in cfg.live if n.kind == "with_enter"]
+        rng = cfg.count_range(cfg.entry, dsts, w, avoid_edges=quiet)
+        chk.req(rng == (1, 1) and all(m == "once" for _, _, m in ev), "C03.start", "%s:one-start" % f.fq, chk.where(f),
+                good="exactly one start on every path", fail="start messages per created action range %s" % (rng,), sites=len(cfg.live))
+
+
+def _finish(chk):
+    ctx = chk.ctx
+    f = ctx.func("_action", "Action.finish")
+    return f, ctx.cfg(f)
+
+
+def _flag_tests(cfg, attr):
+    """[(test node, label under which the flag is FALSE)]"""
+    out = []
+    for t in cfg.live:
+        if t.kind != "test":
+            continue
+        e = t.exprs[0]
+        if common.is_self_attr(e, attr):
+            out.append((t, "false"))
+        elif isinstance(e, ast.UnaryOp) and isinstance(e.op, ast.Not) and common.is_self_attr(e.operand, attr):
+            out.append((t, "true"))
+    return out
+
+
+def rule_once(chk):
+    ctx = chk.ctx
+    f, cfg = _finish(chk)
+    from . import c02
+    _c, wcalls = c02._write_call(chk, f)
+    chk.need(wcalls, "finish no longer writes")
+    wnodes = [n for n, c, m in wcalls]
+    tests = _flag_tests(cfg, "_finished")
+    stores = [n for n in cfg.live if isinstance(n.ast, ast.Assign) and any(common.is_self_attr(t, "_finished") for t in n.ast.targets)]
+    true_stores = [n for n in stores if isinstance(n.ast.value, ast.Constant) and n.ast.value.value is True]
+    problems = []
+    if not tests:
+        problems.append("finish does not test the finished flag")
+    if not true_stores or len(true_stores) != len(stores):
+        problems.append("finish does not set the finished flag to True (only)")
+    if not problems:
+        for w in wnodes:
+            if not any(cfg.edge_dominates(t, lab, w) for t, lab in tests):
+                problems.append("the end message can be written without the finished flag having been tested false")
+        ok, wit = cfg.precedes(true_stores, wnodes)
+        if not ok:
+            problems.append("a path writes the end message before marking the action finished: %s" % cfg.fmt_path(wit))
+        # nothing that can raise / re-enter between the test and the store
+        for t, lab in tests:
+            starts = [s for s, l in t.succ if l == lab]
+            region = cfg.reach(starts, avoid=set(true_stores))
+            for n in region:
+                if calls_in_node(n) or n.kind in ("raise_stmt",):
+                    problems.append("`%s` runs between testing and setting the finished flag (re-entrant finish would write twice)" % n.text()[:50])
+                    break
+    quiet = common.quiet_exc_edges(ctx, f)
+
+    def w_(n):
+        return sum(1 for x in wnodes if x is n)
+    if true_stores:
+        rng = cfg.count_range(true_stores[0], [cfg.exit, cfg.raise_exit], w_, avoid_edges=quiet)
+        if rng != (1, 1):
+            problems.append("end messages written per first finish() range %s" % (rng,))
+    chk.req(not problems, "C03.once", "Action.finish:exactly-one-end", chk.where(f),
+            good="flag tested false -> flag set -> exactly one write, on every path", fail="; ".join(problems), sites=len(cfg.live))
+    # flag initialised False, no other writer
+    cls = f.cls
+    writers = []
+    for m in set(cls.methods.values()):
+        for n in iter_own_nodes(m.node):
+            if isinstance(n, (ast.Assign, ast.AugAssign)):
+                tg = n.targets if isinstance(n, ast.Assign) else [n.target]
+                if any(common.is_self_attr(t, "_finished") for t in tg):
+                    writers.append((m, n))
+    init_ok = any(m.name == "__init__" and isinstance(n.value, ast.Constant) and n.value.value is False for m, n in writers)
+    others = [(m, n) for m, n in writers if m.name not in ("__init__", "finish")]
+    chk.req(init_ok and not others, "C03.once", "Action._finished:initialised-false-single-writer", chk.where(f),
+            good="False in __init__, set only by finish", fail="finished flag %s" % ("also written by %s" % others[0][0].fq if others else "not initialised False"))
+
+
+def _exc_none_polarity(e, pname):
+    """For a test expression on parameter pname: ('none', +1) if true means `is None`,
+    ('none', -1) if true means `is not None`; ('other', 0) for any other test that
+    reads pname; None if the test does not read pname."""
+    reads = any(isinstance(x, ast.Name) and x.id == pname for x in ast.walk(e))
+    if not reads:
+        return None
+    if isinstance(e, ast.Compare) and len(e.ops) == 1 and isinstance(e.left, ast.Name) and e.left.id == pname \
+            and isinstance(e.comparators[0], ast.Constant) and e.comparators[0].value is None:
+        if isinstance(e.ops[0], (ast.Is, ast.Eq)):
+            return ("none", 1)
+        if isinstance(e.ops[0], (ast.IsNot, ast.NotEq)):
+            return ("none", -1)
+    if isinstance(e, ast.UnaryOp) and isinstance(e.op, ast.Not):
+        r = _exc_none_polarity(e.operand, pname)
+        if r and r[0] == "none":
+            return ("none", -r[1])
+    return ("other", 0)
+
+
+def rule_truthful(chk):
+    ctx = chk.ctx
+    p = ctx.p
+    f, cfg = _finish(chk)
+    act = p.mod("_action")
+    AS = p.fold_global(act, "ACTION_STATUS_FIELD")
+    SUCC = p.fold_global(act, "SUCCEEDED_STATUS")
+    FAIL = p.fold_global(act, "FAILED_STATUS")
+    params = [a.arg for a in f.node.args.args]
+    chk.need(len(params) >= 2, "finish has no exception parameter")
+    pname = params[1]
+    chk.req(not stores_to_name(f, pname), "C03.truthful", "Action.finish:exception-parameter-not-rebound", chk.where(f),
+            good="parameter %s is never rebound" % pname, fail="finish rebinds its exception parameter")
+    status_stores = []
+    for n in cfg.live:
+        if isinstance(n.ast, ast.Assign):
+            for t in n.ast.targets:
+                if isinstance(t, ast.Subscript):
+                    ok, k = ctx.try_fold(f, t.slice)
+                    if ok and k == AS:
+                        okv, v = ctx.try_fold(f, n.ast.value)
+                        status_stores.append((n, v if okv else None))
+    chk.need(status_stores, "finish does not store an action status")
+    for n, v in status_stores:
+        guards = cfg.guards_of(n)
+        verdicts = []
+        for t, lab in guards:
+            if t.kind != "test":
+                continue
+            r = _exc_none_polarity(t.exprs[0], pname)
+            if r is None:
+                continue
+            if r[0] == "other":
+                verdicts.append(("other", unparse(t.exprs[0])))
+            else:
+                isnone = (r[1] == 1) == (lab == "true")
+                verdicts.append(("none" if isnone else "notnone", unparse(t.exprs[0])))
+        kinds = {k for k, _ in verdicts}
+        if v == SUCC:
+            chk.req(kinds == {"none"}, "C03.truthful", "Action.finish:succeeded-iff-no-exception", chk.where(f, n.lineno),
+                    good="succeeded status stored exactly under `%s is None`" % pname,
+                    fail="succeeded status is stored under %s: an escaping exception (e.g. a BaseException or a falsy one) can be logged as success"
+                         % (sorted(verdicts) or "no test of the exception"))
+        elif v == FAIL:
+            chk.req(kinds == {"notnone"}, "C03.truthful", "Action.finish:failed-iff-exception", chk.where(f, n.lineno),
+                    good="failed status stored exactly under `%s is not None`" % pname,
+                    fail="failed status is stored under %s" % (sorted(verdicts) or "no test of the exception"))
+        else:
+            chk.bad("C03.truthful", "Action.finish:status-constant", chk.where(f, n.lineno), "status stored is %r" % (v,))
+    # every write is preceded by a status store
+    from . import c02
+    _c, wcalls = c02._write_call(chk, f)
+    ok, wit = cfg.precedes([n for n, v in status_stores], [n for n, c, m in wcalls])
+    chk.req(ok, "C03.truthful", "Action.finish:status-always-set", chk.where(f), good="a status store precedes the write on every path",
+            fail="a path writes the end message without a status: %s" % (wit and cfg.fmt_path(wit)))
+
+
 def rule_propagate(chk):
-    pass
+    ctx = chk.ctx
+    ex = ctx.func("_action", "Action.__exit__")
+    fin = ctx.func("_action", "Action.finish")
+    cfg = ctx.cfg(ex)
+    params = [a.arg for a in ex.node.args.args]
+    chk.need(len(params) >= 4, "__exit__ signature changed")
+    ename = params[2]
+    fcalls = ctx.calls_to(ex, fin)
+    chk.need(fcalls, "__exit__ no longer calls finish")
+    problems = []
+    if stores_to_name(ex, ename):
+        problems.append("__exit__ rebinds its exception parameter")
+    for n, c, m in fcalls:
+        arg = c.args[0] if c.args else next((k.value for k in c.keywords if k.arg == "exception"), None)
+        if not (isinstance(arg, ast.Name) and arg.id == ename):
+            problems.append("finish is called with %s, not the exception given to __exit__" % (arg is not None and unparse(arg)))
+        if m != "once":
+            problems.append("finish call is conditional inside an expression")
+    ok, wit = cfg.must_pass([cfg.entry], [cfg.exit], [n for n, c, m in fcalls])
+    if not ok:
+        problems.append("a path leaves __exit__ normally without finishing the action: %s" % cfg.fmt_path(wit))
+    chk.req(not problems, "C03.truthful", "Action.__exit__:finishes-with-the-escaping-exception", chk.where(ex),
+            good="finish(%s) on every normal path, parameter never rebound" % ename, fail="; ".join(problems), sites=len(cfg.live))
+    # returns falsy, swallows nothing
+    problems = []
+    for r in common.returns_of(cfg):
+        v = r.ast.value
+        if v is not None and not (isinstance(v, ast.Constant) and not v.value):
+            problems.append("__exit__ returns %s (a truthy value swallows the application's exception)" % unparse(v))
+    for n in iter_own_nodes(ex.node):
+        if isinstance(n, ast.Try) and n.handlers:
+            problems.append("__exit__ contains an except clause")
+    chk.req(not problems, "C03.propagate", "Action.__exit__:returns-falsy", chk.where(ex),
+            good="every exit returns None/falsy; no handler", fail="; ".join(problems))
+    for q in ("Action.run", "Action.context"):
+        g = ctx.func("_action", q)
+        hs = [n for n in iter_own_nodes(g.node) if isinstance(n, ast.Try) and n.handlers]
+        chk.req(not hs, "C03.propagate", "%s:no-except-clause" % q, chk.where(g),
+                good="user code runs under try/finally only", fail="%s catches exceptions of the application's code" % q)
+    # run returns the function's result
+    run = ctx.func("_action", "Action.run")
+    rc = ctx.cfg(run)
+    okret = True
+    for r in common.returns_of(rc):
+        v = r.ast.value
+        if not (isinstance(v, ast.Call) and isinstance(v.func, ast.Name) and v.func.id in run.params
+                and any(isinstance(a, ast.Starred) for a in v.args)):
+            okret = False
+    chk.req(okret and common.returns_of(rc), "C03.propagate", "Action.run:returns-result", chk.where(run),
+            good="returns f(*args, **kwargs)", fail="Action.run does not return the function's own result")
+
+
+def rule_failfields(chk):
+    ctx = chk.ctx
+    p = ctx.p
+    f, cfg = _finish(chk)
+    msg = p.mod("_message")
+    EX = p.fold_global(msg, "EXCEPTION_FIELD")
+    RE = p.fold_global(msg, "REASON_FIELD")
+    pname = [a.arg for a in f.node.args.args][1]
+    gf = ctx.func("_errors", "ErrorExtraction.get_fields_for_exception")
+    su = ctx.func("_util", "safeunicode")
+    from . import c02
+    _c, wcalls = c02._write_call(chk, f)
+    var = wcalls[0][1].args[0].id
+    # assignments to the message variable, by arm
+    arms = {"none": [], "notnone": []}
+    for n in cfg.live:
+        if isinstance(n.ast, ast.Assign) and any(isinstance(t, ast.Name) and t.id == var for t in n.ast.targets):
+            pol = None
+            for t, lab in cfg.guards_of(n):
+                if t.kind == "test":
+                    r = _exc_none_polarity(t.exprs[0], pname)
+                    if r and r[0] == "none":
+                        pol = "none" if (r[1] == 1) == (lab == "true") else "notnone"
+            if pol:
+                arms[pol].append(n)
+    okf = len(arms["notnone"]) == 1 and isinstance(arms["notnone"][0].ast.value, ast.Call) and gf in ctx.targets(f, arms["notnone"][0].ast.value)
+    if okf:
+        c = arms["notnone"][0].ast.value
+        okf = len(c.args) == 2 and isinstance(c.args[1], ast.Name) and c.args[1].id == pname
+    chk.req(okf, "C03.failfields", "Action.finish:failure-fields-from-extraction", chk.where(f),
+            good="failure fields = get_fields_for_exception(logger, %s) (a fresh dict)" % pname,
+            fail="on the failure arm the fields are not the result of get_fields_for_exception(..., %s)" % pname)
+    oks = len(arms["none"]) == 1 and common.is_self_attr(arms["none"][0].ast.value, "_successFields")
+    chk.req(oks, "C03.failfields", "Action.finish:success-fields", chk.where(f),
+            good="success arm uses the success fields", fail="on the success arm the fields are not self._successFields")
+    # exception / reason stores on the failure arm
+    found = {EX: None, RE: None}
+    for n in cfg.live:
+        if isinstance(n.ast, ast.Assign):
+            for t in n.ast.targets:
+                if isinstance(t, ast.Subscript) and isinstance(t.value, ast.Name) and t.value.id == var:
+                    ok, k = ctx.try_fold(f, t.slice)
+                    if ok and k in found:
+                        found[k] = n
+    n = found[EX]
+    txt = unparse(n.ast.value) if n is not None else ""
+    chk.req(n is not None and "%s.__class__.__module__" % pname in txt and "%s.__class__.__name__" % pname in txt,
+            "C03.failfields", "Action.finish:exception-class-name", chk.where(f, n.lineno if n else None),
+            good="exception = '<module>.<name>' of the exception's class", fail="exception field is %s" % (txt or "missing"))
+    n = found[RE]
+    v = n.ast.value if n is not None else None
+    chk.req(isinstance(v, ast.Call) and su in ctx.targets(f, v) and len(v.args) == 1 and isinstance(v.args[0], ast.Name) and v.args[0].id == pname,
+            "C03.failfields", "Action.finish:reason-safeunicode", chk.where(f, n.lineno if n else None),
+            good="reason = safeunicode(%s)" % pname, fail="reason field is %s" % (v is not None and unparse(v)))
+    # success fields only on success; start fields do not reach finish
+    st = ctx.func("_action", "Action._start")
+    sparam = [a.arg for a in st.node.args.args][1]
+    leak = []
+    for x in iter_own_nodes(st.node):
+        if isinstance(x, ast.Assign) and any(common.is_self_attr(t) for t in x.targets) and sparam in {y.id for y in ast.walk(x.value) if isinstance(y, ast.Name)}:
+            leak.append(x)
+        if isinstance(x, ast.Call) and isinstance(x.func, ast.Attribute) and common.is_self_attr(x.func.value) and x.func.attr in ("update", "append", "extend") \
+                and any(isinstance(a, ast.Name) and a.id == sparam for a in x.args):
+            leak.append(x)
+    chk.req(not leak, "C03.failfields", "Action._start:start-fields-not-retained", chk.where(st),
+            good="start fields are not stored on the action", fail="_start stores its fields on the action (they would leak into the end message)")
+
+
+def rule_mro(chk):
+    ctx = chk.ctx
+    gf = ctx.func("_errors", "ErrorExtraction.get_fields_for_exception")
+    cfg = ctx.cfg(gf)
+    ename = [a.arg for a in gf.node.args.args][2]
+    loops = [n for n in cfg.live if n.kind == "for_next"]
+    chk.need(len(loops) == 1, "get_fields_for_exception: MRO loop not found")
+    head = loops[0]
+    it = head.ast.iter
+    txt = unparse(it)
+    ok_iter = False
+    if isinstance(it, ast.Call) and any(t.kind == "ext" and t.ref == "inspect.getmro" for t in ctx.cg.typer.resolve_call(gf, it)):
+        a = unparse(it.args[0]) if it.args else ""
+        ok_iter = a in ("%s.__class__" % ename, "type(%s)" % ename)
+    elif txt in ("%s.__class__.__mro__" % ename, "type(%s).__mro__" % ename, "%s.__class__.mro()" % ename, "type(%s).mro()" % ename):
+        ok_iter = True
+    chk.req(ok_iter, "C03.mro", "get_fields_for_exception:walks-the-MRO-in-order", chk.where(gf, head.lineno),
+            good="iterates %s" % txt, fail="extractor lookup iterates %s, not the exception class's MRO in order (nearest class must win)" % txt)
+    # first registered class returns: from the membership test's true edge the loop head is unreachable
+    lv = head.ast.target.id if isinstance(head.ast.target, ast.Name) else None
+    tests = [t for t in cfg.live if t.kind == "test" and isinstance(t.exprs[0], ast.Compare) and len(t.exprs[0].ops) == 1
+             and isinstance(t.exprs[0].ops[0], ast.In) and isinstance(t.exprs[0].left, ast.Name) and t.exprs[0].left.id == lv
+             and unparse(t.exprs[0].comparators[0]) == "self.registry"]
+    chk.need(tests, "get_fields_for_exception: registry membership test not found")
+    quiet = common.quiet_exc_edges(ctx, gf)
+    for t in tests:
+        starts = [s for s, l in t.succ if l == "true"]
+        r = cfg.reach(starts, avoid_edges=quiet)
+        chk.req(head not in r, "C03.mro", "get_fields_for_exception:nearest-class-wins", chk.where(gf, t.lineno),
+                good="the first registered class in MRO order decides (no path continues the loop)",
+                fail="after a registered class is found the loop can continue to a more distant base class")
+    # the extractor looked up is the one registered for that class and is applied to the exception
+    from . import c07
+    sites = [s for f_, s, w in c07.core_sites(chk) if f_ is gf]
+    for s in sites:
+        c = s.call
+        chk.req(len(c.args) == 1 and isinstance(c.args[0], ast.Name) and c.args[0].id == ename, "C03.mro",
+                "get_fields_for_exception:extractor-applied-to-the-exception", s.where,
+                good="extractor(%s)" % ename, fail="extractor is applied to %s" % unparse(c))
+        vals = assigned_values(gf, c.func.id)
+        chk.req(all(isinstance(v, ast.Subscript) and isinstance(v.slice, ast.Name) and v.slice.id == lv for v in vals), "C03.mro",
+                "get_fields_for_exception:extractor-of-that-class", s.where, good="self.registry[%s]" % lv,
+                fail="the extractor used is not the one registered for the class found")
+
+
+def rule_safeunicode(chk):
+    ctx = chk.ctx
+    for q in ("safeunicode", "saferepr"):
+        f = ctx.func("_util", q)
+        U = ctx.contain.U.get(f, {})
+        cfg = ctx.cfg(f)
+        handlers = [n for n in cfg.live if n.kind == "handler"]
+        const_ret = True
+        for h in handlers:
+            for n in cfg.reach([h]):
+                if n.kind == "return" and not isinstance(n.ast.value, ast.Constant):
+                    const_ret = False
+        chk.req(not U and handlers and const_ret, "C03.safeunicode", "%s:total" % q, chk.where(f),
+                good="conversion inside a catch-all whose handler returns a constant (U=empty)",
+                fail="%s can raise: %s" % (q, [s.text[:30] for s, _ in U.values()] or "handler does not return a constant"))
+
+
+def rule_norecursion(chk):
+    from . import c07
+    ctx = chk.ctx
+    from ..contain import reentry_edges
+    gf = ctx.func("_errors", "ErrorExtraction.get_fields_for_exception")
+    edges = [(f, s, how) for f, s, how in reentry_edges(ctx.cg, ctx.contain, [gf])]
+    if not edges:
+        chk.ok("C03.norecursion", "get_fields_for_exception:failure-report-does-not-re-enter", chk.where(gf),
+               "the extractor-failure report cannot reach get_fields_for_exception again")
+    for f, s, how in edges:
+        cut, trace = c07.const_guard_cut(chk, f, s)
+        chk.req(cut, "C03.norecursion", "get_fields_for_exception:failure-report-does-not-re-enter", s.where,
+                good="cut: " + "; ".join(trace[-2:]),
+                fail="reporting a failed extractor runs the extractors again without a cut: a broken extractor replaces the application's exception by RecursionError and the end message is lost",
+                sites=len(trace) + 1)
+
+
 def run(chk):
-    pass
+    rule_start(chk)
+    rule_once(chk)
+    rule_truthful(chk)
+    rule_propagate(chk)
+    rule_failfields(chk)
+    rule_mro(chk)
+    rule_safeunicode(chk)
+    rule_norecursion(chk)
